@@ -549,26 +549,16 @@ Tiff::append(const struct VideoFrame* frames, size_t nbytes) noexcept
             ifdN_t ifd{
                 countof(ifd.tags),
                 {
-                  // required fields for grayscale images
+                  // The entries of a directory are sorted in ascending order by
+                  // tag (TIFF 6.0, section 2): 254, 256, 257, 258, 259, 262, 270,
+                  // 273, 274, 277, 278, 279, 282, 283, 296, 339.
+                  new_subfile_type_multipage(),
                   image_width(cur->shape.dims.width),
                   image_length(cur->shape.dims.height),
                   bits_per_sample(
                     (uint16_t)(8 * bytes_of_type(cur->shape.type))),
                   uncompressed(),
                   photometric_interpretation_black_is_zero(),
-                  strip_offsets(section_data),
-                  rows_per_strip(cur->shape.dims.height),
-                  strip_byte_counts(bytes_of_image),
-                  x_resolution(10000 * 10000,
-                               10000 * (uint32_t)pixel_scale_um_.x),
-                  y_resolution(10000 * 10000,
-                               10000 * (uint32_t)pixel_scale_um_.y),
-                  resolution_unit_centimeter(),
-                  orientation_top_left(),
-                  sample_format(cur->shape.type),
-                  samples_per_pixel_grayscale(),
-                  new_subfile_type_multipage(),
-
                   (frame_count_ == 0) && (external_metadata_.length() > 0)
                     ? image_description(
                         ifd_strings_,
@@ -588,6 +578,17 @@ Tiff::append(const struct VideoFrame* frames, size_t nbytes) noexcept
                                         cur->hardware_frame_id,
                                         cur->timestamps.acq_thread,
                                         cur->timestamps.hardware),
+                  strip_offsets(section_data),
+                  orientation_top_left(),
+                  samples_per_pixel_grayscale(),
+                  rows_per_strip(cur->shape.dims.height),
+                  strip_byte_counts(bytes_of_image),
+                  x_resolution(10000 * 10000,
+                               10000 * (uint32_t)pixel_scale_um_.x),
+                  y_resolution(10000 * 10000,
+                               10000 * (uint32_t)pixel_scale_um_.y),
+                  resolution_unit_centimeter(),
+                  sample_format(cur->shape.type),
                 },
                 align8(ifd_strings_.offset)
             };
